@@ -596,6 +596,9 @@ reg(Zoo(
             )),
             S('Out'),
             S('R1'), S('R2', defer=['d2']),
+            # R3 (second region, visited after DS and its substates) defers d1 conditionally while I1 defers it unconditionally:
+            # "deferred if ANY active state defers it", whatever the later-visited state answers
+            S('R3', defer=['d1'], cond_defer=True),
         ],
         initial=['DS', 'R1'],
         rows=[
@@ -606,6 +609,8 @@ reg(Zoo(
             R('R1', 'tg', 'R2', a=False, g=False),
             R('R2', 'tg', 'R1', a=False, g=False),
             R('R1', 'd2', None, g=False),
+            R('R1', 'x1', 'R3', a=False, g=False),
+            R('R3', 'tg', 'R1', a=False, g=False),
         ],
     ),
 ))
